@@ -48,6 +48,7 @@ type Style struct {
 	SpaceBeforeColon bool
 	ColonGap         int               // >0: what stands between a key and its colon: 1 a tab, 2 a line break and the indentation, 3 two blanks
 	TightAnn         bool              // no blank between a value and the annotation that follows it
+	TightComments    bool              // end-of-line user comments start right after the value (no blank), every other one as a ### block ###
 	SplitAnn         int               // >0: every SplitAnn-th node with two rules or more (or rules and a note) gets two annotations: a multi-line one closing on the next line and a second one starting on that closing line
 	RuleOrder        func(n int) []int // permutation of rule indexes (nil = as written)
 	// Per-annotation override hook (nil = use the fields above)
@@ -195,7 +196,11 @@ func (p *printer) eolComment() {
 	if p.st.Comments >= 3 {
 		p.cc++
 		if p.cc%2 == 0 || p.st.Comments == 4 {
-			p.w([]string{" # eol comment", " #", " # eol comment"}[p.cc%3])
+			if p.st.TightComments {
+				p.w([]string{"# eol comment", "### block c ###", "#", "###c###"}[p.cc%4])
+			} else {
+				p.w([]string{" # eol comment", " #", " # eol comment"}[p.cc%3])
+			}
 		}
 	}
 }
